@@ -79,6 +79,11 @@ class Instance:
             self.bounds = None
         else:
             w = rng.uniform(0.2, 3.0, size=n)
+            self.thin = bool(rng.random() < 0.2)
+            if self.thin:
+                # one side of the box much shorter than 2 * (default rhobeg = 0.1): legal with internal scaling, where rhobeg refers to
+                # the [0, 1] box (seeded change C05_10 rejected such problems as input errors)
+                w[int(rng.integers(0, n))] = float(rng.uniform(0.01, 0.045))
             if self.bkind == "around":
                 lo, hi = np.minimum(xunc, self.x0) - w, np.maximum(xunc, self.x0) + w
             elif self.bkind == "away":
@@ -101,14 +106,18 @@ class Instance:
                 self.x0 = self.x0.copy()
                 self.x0[j] = lo[j] if rng.random() < 0.5 else hi[j]
             self.x0 = np.minimum(np.maximum(self.x0, lo), hi)
-        self.scaling = bool(self.bounds is not None and rng.random() < 0.5)
+        self.scaling = bool(self.bounds is not None and (rng.random() < 0.5 or getattr(self, "thin", False)))
+        # the nsamples callback asking for several evaluations per point (of the same deterministic residuals): the averaged problem
+        # is the same linear problem; the budget is scaled with the sample count (seeded change C05_9: extra samples at x0 taken at
+        # the SCALED point)
+        self.nsamp = int(rng.integers(2, 4)) if rng.random() < 0.15 else 1
         self.npt = n + 1 if rng.random() < 0.5 else 2 * n + 1
         # documented option: hard restarts (a restarted run starts from the best point and re-uses its residuals; on a linear problem
         # it ties with the previous run, which must count as UNsuccessful so that the run still ends with success)
         self.hard_restarts = bool(rng.random() < 0.15)
 
     def describe(self):
-        return {"n": self.n, "m": self.m, "cond_A": self.cond, "bounds": self.bkind, "scaling": self.scaling, "npt": self.npt, "hard_restarts": self.hard_restarts,
+        return {"n": self.n, "m": self.m, "cond_A": self.cond, "bounds": self.bkind, "scaling": self.scaling, "npt": self.npt, "hard_restarts": self.hard_restarts, "nsamples": self.nsamp, "thin_box": bool(getattr(self, "thin", False)),
                 "x0_on_bound": bool(self.bounds is not None and np.any((self.x0 == self.bounds[0]) | (self.x0 == self.bounds[1])))}
 
     def objfun(self, x):
@@ -116,6 +125,9 @@ class Instance:
 
     def solve(self, dfols):
         kw = dict(npt=self.npt, do_logging=False, scaling_within_bounds=self.scaling)
+        if self.nsamp > 1:
+            kw["nsamples"] = lambda delta, rho, it, nruns, k=self.nsamp: k
+            kw["maxfun"] = self.nsamp * min(100 * (self.n + 1), 1000)
         if self.hard_restarts:
             kw["user_params"] = {"restarts.use_restarts": True, "restarts.use_soft_restarts": False}
         if self.bounds is not None:
@@ -194,6 +206,13 @@ def check_instance(inst, soln):
         return "fail:C05:suboptimal:" + cls, info
     if gap < -1e-9 * (1.0 + fstar):
         return "skip:oracle-worse-than-dfols", info
+    if int(soln.flag) == 1 and getattr(inst, "hard_restarts", False) and int(soln.nruns) <= 11:
+        # hard restarts (an option outside the property's 'default' run, drawn to watch the restart merge): on a linear problem
+        # every restart ties and counts as unsuccessful, so at most 1 + restarts.max_unsuccessful_restarts = 11 runs are made; the
+        # budget may end before the 11th - then the max-evaluations warning at the optimum is what the option documents.
+        # More than 11 runs mean that tied restarts were counted as successful (seeded C05_7) - reported below.
+        info["hard_restarts_budget_end"] = int(soln.nruns)
+        return "ok", info
     if int(soln.flag) != 0:
         info["what"] = "optimal point found (gap %.2e) but flag = %d ('%s'), not success" % (gap, int(soln.flag), info["msg"])
         return "fail:C05:flag-not-success:flag=%d" % int(soln.flag), info
